@@ -29,7 +29,15 @@ import (
 var (
 	verifDir = "/verif"
 	repoDir  = "/repo"
+	outDir   = "" // where evidence/ and replays/ go (default: verifDir); set VERIF_OUT when checking a snapshot
 )
+
+func outBase() string {
+	if outDir != "" {
+		return outDir
+	}
+	return verifDir
+}
 
 func init() {
 	if v := os.Getenv("VERIF_DIR"); v != "" {
@@ -37,6 +45,9 @@ func init() {
 	}
 	if v := os.Getenv("VERIF_REPO"); v != "" {
 		repoDir = v
+	}
+	if v := os.Getenv("VERIF_OUT"); v != "" {
+		outDir = v
 	}
 }
 
@@ -107,7 +118,7 @@ type buildOpts struct {
 func buildWorker(scratch string, bo buildOpts) (string, *instrument.Report, error) {
 	sub := filepath.Join(scratch, "ov"+bo.outName)
 	os.MkdirAll(sub, 0o755)
-	rep, err := instrument.Generate(instrument.Options{RepoDir: repoDir, VerifDir: verifDir, OutDir: sub,
+	rep, err := instrument.Generate(instrument.Options{RepoDir: repoDir, BuildDir: "/repo", VerifDir: verifDir, OutDir: sub,
 		NoShim: bo.noShim, Dense: bo.dense, ExtraFiles: bo.extra})
 	if err != nil {
 		return "", nil, err
@@ -243,7 +254,7 @@ func main() {
 			fatal("overlay needs a directory")
 		}
 		os.MkdirAll(os.Args[2], 0o755)
-		rep, err := instrument.Generate(instrument.Options{RepoDir: repoDir, VerifDir: verifDir, OutDir: os.Args[2]})
+		rep, err := instrument.Generate(instrument.Options{RepoDir: repoDir, BuildDir: "/repo", VerifDir: verifDir, OutDir: os.Args[2]})
 		if err != nil {
 			fatal("%v", err)
 		}
@@ -397,7 +408,7 @@ func doCheck(id, tier string, keep bool) int {
 	}
 	seed := seedFromEnv()
 	scratch := mkScratch()
-	evPath := filepath.Join(verifDir, "evidence", id+".json")
+	evPath := filepath.Join(outBase(), "evidence", id+".json")
 	os.MkdirAll(filepath.Dir(evPath), 0o755)
 
 	infra := func(msg string) int {
@@ -637,7 +648,7 @@ func doCheck(id, tier string, keep bool) int {
 	// classify
 	exit := 0
 	nviol := 0
-	os.MkdirAll(filepath.Join(verifDir, "replays", id), 0o755)
+	os.MkdirAll(filepath.Join(outBase(), "replays", id), 0o755)
 	for _, v := range confirmed {
 		if kf := matchKnown(known, id, v.Sig); kf != nil {
 			fmt.Printf("KNOWN-FINDING: property=%s %s [%s]\n", id, kf.What, v.Sig)
@@ -645,7 +656,7 @@ func doCheck(id, tier string, keep bool) int {
 		}
 		nviol++
 		exit = 1
-		rp := filepath.Join(verifDir, "replays", id, sanitize(v.Sig)+".json")
+		rp := filepath.Join(outBase(), "replays", id, sanitize(v.Sig)+".json")
 		rb, _ := json.MarshalIndent(map[string]any{"property": id, "sig": v.Sig, "clause": v.Clause, "detail": v.Detail, "case": v.Case, "tier": tier}, "", " ")
 		os.WriteFile(rp, rb, 0o644)
 		fmt.Printf("VIOLATION property=%s replay=%s\n", id, rp)
